@@ -2149,6 +2149,14 @@ func (l *LanguageServer) handleWorkspaceDidDeleteFiles(
 		}
 	}
 
+	// the aggregate data of the deleted files is gone, and other files
+	// may have aggregate violations to add or remove as a result of that
+	l.lintWorkspaceJobs <- lintWorkspaceJob{
+		Reason:              "workspace/didDeleteFiles",
+		OverwriteAggregates: false,
+		AggregateReportOnly: true,
+	}
+
 	return struct{}{}, nil
 }
 
